@@ -17,12 +17,18 @@ EXIT_OK, EXIT_VIOLATION, EXIT_HARNESS = 0, 1, 2
 
 
 def _load_known(prop_id):
-    path = os.path.join(env.VERIF, 'known_findings.json')
-    if not os.path.exists(path):
-        return []
-    with open(path) as fh:
-        data = json.load(fh)
-    return [f for f in data.get('findings', []) if f.get('property') == prop_id]
+    paths = [os.path.join(env.VERIF, 'known_findings.json')]
+    frag = os.path.join(env.VERIF, 'known_findings.d')
+    if os.path.isdir(frag):
+        paths += [os.path.join(frag, f) for f in sorted(os.listdir(frag)) if f.endswith('.json')]
+    out = []
+    for path in paths:
+        if not os.path.exists(path):
+            continue
+        with open(path) as fh:
+            data = json.load(fh)
+        out += [f for f in data.get('findings', []) if f.get('property') == prop_id]
+    return out
 
 
 def sig_matches(entry_sig, sig):
@@ -71,8 +77,9 @@ def write_evidence(prop, tier, seed, coverage, assumptions, wall, violations, ex
           'assumptions': list(assumptions), 'wall_s': round(wall, 2), 'violations': int(violations)}
     if extra:
         ev.update(extra)
-    os.makedirs(os.path.join(env.VERIF, 'evidence'), exist_ok=True)
-    path = os.path.join(env.VERIF, 'evidence', prop.ID + '.json')
+    edir = os.environ.get('VERIF_EVIDENCE_DIR') or os.path.join(env.VERIF, 'evidence')
+    os.makedirs(edir, exist_ok=True)
+    path = os.path.join(edir, prop.ID + '.json')
     with open(path + '.tmp', 'w') as fh:
         json.dump(ev, fh, indent=1, default=repr)
     os.replace(path + '.tmp', path)
@@ -102,7 +109,7 @@ def main(argv=None):
     args = ap.parse_args(argv)
     t0 = time.time()
     seed = int(os.environ.get('VERIF_SEED', '1') or 1)
-    key = env.setup(prune=True)
+    key = env.setup(prune=False)
     try:
         from . import build
         binfo = build.build()
@@ -188,8 +195,9 @@ def main(argv=None):
     nshards = args.shards or getattr(prop, 'SHARDS', {}).get(args.tier, 16)
     nshards = max(1, min(nshards, 16))
     timeout = getattr(prop, 'TIMEOUT', {}).get(args.tier, 3600 if args.tier == 'quick' else 6 * 3600)
-    work = tempfile.mkdtemp(prefix='verif-%s-' % prop.ID, dir=os.path.join(env.VERIF, 'out') if os.path.isdir(
-        os.path.join(env.VERIF, 'out')) else None)
+    out_base = os.environ.get('VERIF_OUT_DIR') or os.path.join(env.VERIF, 'out')
+    os.makedirs(out_base, exist_ok=True)
+    work = tempfile.mkdtemp(prefix='verif-%s-' % prop.ID, dir=out_base)
     procs = []
     per = [ncases // nshards + (1 if i < ncases % nshards else 0) for i in range(nshards)]
     child_env = dict(os.environ)
@@ -247,7 +255,7 @@ def main(argv=None):
             known_hits[kf['id']] = known_hits.get(kf['id'], 0) + n
         else:
             buckets[sk] = n
-    out_dir = os.path.join(env.VERIF, 'out', 'replays')
+    out_dir = os.path.join(out_base, 'replays')
     for sk, n in sorted(buckets.items()):
         recs = [r for r in merged['fail_records'] if _sig_key(r['signature']) == sk]
         if not recs:
@@ -276,7 +284,7 @@ def main(argv=None):
                 print('note: shrink failed (%s); keeping the original case' % e)
                 case = rec['case']
         os.makedirs(out_dir, exist_ok=True)
-        rpath = os.path.join('out', 'replays', '%s-%s.json' % (prop.ID, _sig_hash(rec['signature'])))
+        rpath = os.path.relpath(os.path.join(out_dir, '%s-%s.json' % (prop.ID, _sig_hash(rec['signature']))), env.VERIF)
         with open(os.path.join(env.VERIF, rpath), 'w') as fh:
             json.dump({'property': prop.ID, 'case': case, 'original_case': rec['case'],
                        'signature': rec['signature'], 'detail': rec['detail'], 'occurrences': n,
